@@ -9,6 +9,7 @@
 #define BOOST_MQTT5_ASYNC_SENDER_HPP
 
 #include <boost/mqtt5/detail/internal_types.hpp>
+#include <boost/mqtt5/detail/verif.hpp>
 
 #include <boost/asio/any_completion_handler.hpp>
 #include <boost/asio/any_io_executor.hpp>
@@ -126,6 +127,8 @@ class async_sender {
 
     serial_num_t _last_serial_num { 0 };
 
+    BOOST_MQTT5_VERIF_FRIEND
+
     // value of the stream's replace_count() at the time of the last resend
     unsigned _resent_at { 0 };
 
@@ -167,6 +170,10 @@ public:
             self._write_queue.emplace_back(
                 asio::buffer(buffer), serial_num, flags, std::move(handler)
             );
+            BOOST_MQTT5_VERIF_EVENT(
+                "send", long(serial_num), long(flags),
+                long(self._write_queue.size()), long(self._write_in_progress)
+            );
             self.do_write();
         };
 
@@ -189,6 +196,10 @@ public:
         // The read and the write path may both report the same reconnect.
         // Everything unanswered has then already been re-sent on this
         // connection and must not be re-sent a second time.
+        BOOST_MQTT5_VERIF_EVENT(
+            "resend_call", long(_write_queue.size()),
+            long(_resent_at == _svc._stream.replace_count())
+        );
         if (_resent_at == _svc._stream.replace_count())
             return do_write();
         _resent_at = _svc._stream.replace_count();
@@ -197,6 +208,7 @@ public:
         // operations executing before the _write_queue is filled with
         // all the packets that require resending.
         _write_in_progress = true;
+        BOOST_MQTT5_VERIF_EVENT("resend_begin", long(_write_queue.size()));
 
         auto write_queue = std::move(_write_queue);
         _svc._replies.resend_unanswered();
@@ -212,6 +224,9 @@ public:
         _quota = _limit;
 
         std::stable_sort(_write_queue.begin(), _write_queue.end());
+        BOOST_MQTT5_VERIF_EVENT(
+            "resend_end", long(_write_queue.size()), long(_quota), long(_limit)
+        );
 
         _write_in_progress = false;
         do_write();
@@ -219,6 +234,10 @@ public:
 
     void operator()(write_queue_t write_queue, error_code ec, size_t) {
         _write_in_progress = false;
+        BOOST_MQTT5_VERIF_EVENT(
+            "write_done", long(ec.value()), long(write_queue.size()),
+            long(ec == asio::error::try_again)
+        );
 
         if (ec == asio::error::try_again) {
             _svc.update_session_state();
@@ -251,6 +270,7 @@ public:
             return;
 
         ++_quota;
+        BOOST_MQTT5_VERIF_EVENT("throttled_done", long(_quota), long(_limit));
         do_write();
     }
 
@@ -295,6 +315,11 @@ private:
             );
             _write_queue.erase(it, _write_queue.end());
         }
+
+        BOOST_MQTT5_VERIF_EVENT(
+            "batch", long(write_queue.size()), long(_write_queue.size()),
+            long(_quota), long(_limit)
+        );
 
         std::vector<asio::const_buffer> buffers;
         buffers.reserve(write_queue.size());
